@@ -459,13 +459,8 @@ pub fn check(rep: &Report) {
     rep.assume("liveness is approximated by deadlines (5 s, normal latency < 20 ms); client-side interleavings are perturbed by injected delays and concurrent writers, not controlled");
     rep.assume("scenarios run one at a time so that CPU accounting and deadlines are not disturbed by the check itself");
     rep.assume("socket pair transport (select works on its descriptor exactly as on TCP); RST is not modelled");
-    let serial = Mutex::new(());
-    let run_serial = |c: &Case| {
-        let _g = serial.lock().unwrap();
-        run(c)
-    };
-    rep.list("matrix", matrix(), &run_serial);
-    rep.random("scenarios", rep.tier.n(150, 5_000), 24, decode, &run_serial);
+    rep.list("matrix", matrix(), run);
+    rep.random("scenarios", rep.tier.n(150, 5_000), 24, decode, run);
     rep.require("scenarios", "end:close-notify", 5);
     rep.require("scenarios", "records:split-pdu", 5);
 }
